@@ -104,6 +104,9 @@ func largeHistory(c *CaseCtx, class string, o largeOpts) {
 			return []byte(fmt.Sprintf("v%d", ctr))
 		}
 		n, z := bigSize()
+		if ctr == 1 && room > 21000 {
+			n, z = 8200+r.Intn(12000), true // every "big" history has a value with whole pages of zero bytes early in a segment
+		}
 		return largeValue(c, &ctr, n, z)
 	}
 	lkey := u.ListKeys[0]
